@@ -561,4 +561,7 @@ func init() {
 	register("c05.rtsp", func(a []string) string { return runC05Rtsp(a[0], a[1]) })
 	register("c05.dummy", func(a []string) string { return runC05Dummy(a[0], a[1], a[2]) })
 	register("c05.cls", func(a []string) string { return runC05Cls(a[0], a[1]) })
+	// aliases: the model side runs these two on the model of the pinned tree (witness replay against a lalprobe built from the pinned lal)
+	register("c05.cls0", func(a []string) string { return runC05Cls(a[0], a[1]) })
+	register("c05.bcast0", func(a []string) string { return runC05Bcast(a[0], a[1]) })
 }
